@@ -187,11 +187,26 @@ def _loopback_guarded(prog, b, bb):
     return False
 
 
+def _short_call(c):
+    return "::".join(x for x in c.split("::")[-2:] if not x.startswith("{impl"))
+
+
 def _check_next_mac(nm):
     probs = []
     g = cfg(nm)
     locks = K.calls_to(nm, "mutex::{impl#2}::lock", "Mutex<T>::lock", "sync::poison::mutex::{impl#2}::lock")
     locks = [(bb, t) for bb, t in K.calls(nm) if (F.callee(t) or {}).get("pretty", "").endswith("Mutex::<T>::lock")]
+    if len(locks) == 0:
+        # the other exact idiom: one atomic read-modify-write whose previous value is returned unchanged
+        rmw = [(bb, t) for bb, t in K.calls(nm) if ((F.callee(t) or {}).get("res") or (F.callee(t) or {}).get("fn", "")).endswith("::fetch_add")
+               and "atomic" in ((F.callee(t) or {}).get("res") or (F.callee(t) or {}).get("fn", ""))]
+        ro = dep.origins(nm, [0, []], through_calls=False)
+        if len(rmw) == 1 and F.const_int(F.call_args(rmw[0][1])[1]) == 1 and any(a[0] == "call" and a[2] == rmw[0][0] for a in ro) \
+                and not any(a[0] == "op" for a in ro) and dep.has_field(dep.origins(nm, F.call_args(rmw[0][1])[0]), "Network", "next_mac"):
+            return []
+        src = sorted({_short_call(a[1]) for a in dep.origins(nm, [0, []]) if a[0] == "call" and a[1]})
+        return ["next_mac hands out a value computed from %s without a lock or an atomic read-modify-write: allocation and "
+                "registration are separate steps, so two taps attached concurrently can be given the same address" % (", ".join(src) or "shared state")]
     if len(locks) != 1:
         return ["next_mac does not take exactly one Mutex lock (%d)" % len(locks)]
     lbb, lt = locks[0]
